@@ -10,6 +10,9 @@ CHECKS = {
  "C18": ("exploration", "bounded-exhaustive enumeration of a document lattice x comment placements on the real loader vs. refConf + differential oracle",
          "Documents = base (BESS|UP4) + at most 2 (quick) / 3 (thorough) deviations over a 34-field lattice of valid/boundary/invalid-type/invalid-value representatives; every document is loaded plain and with each of 10 comment forms in every token gap (2 forms for 2-deviation documents; two simultaneous comments for <=1 deviation), plus every truncation and a byte-mutation neighbourhood of the base documents and all shipped sample configurations. Oracle: no panic; a returned Conf satisfies refConf (defaults, durations parse, mode, CIDRs, peers), given scalar values arrive unchanged, and comments never change the result.",
          "refConf is my reading of the statement; string values containing comment markers and multi-line block comments are only checked for crash-freedom/validity as the statement says.", "8/C18", "ENUM"),
+ "C03": ("model_checking", "explicit-state BFS over session histories on the real handlers + real bess plug-in against a fake BESS; table image compared with the reference denotation after every step; exhaustive kill/restart point enumeration",
+         "BFS (depth 4 quick / 5 thorough after the association) over establishments (basic, 3 QERs, SDF families with exact port / small range / prefix lengths / protocols, no QER with drop and buffer FARs and extreme precedences, CHOOSE) and modifications (update FAR forward<->buffer, create rules, update PDR with the same and with a new match key, update QER, remove first / last / two PDRs, remove valid-then-unknown, create-then-remove-unknown, remove FAR+QER) and deletions over 2 associations x <=3 sessions. After every response: each pdrLookup entry must be attributable to a live PDR and equal its denotation field by field (port expansions by interval algebra), FAR and QER tables exact, priorities ordered like precedences, boundary packets (+-1 on each of the 8 fields, pairs) classified identically by fake and reference, unknown-session / no-association requests write nothing. Crash points: every history up to depth 3 x every gRPC command index k: agent killed after k commands, new incarnation through the real SetUpfInfo over gRPC against the populated fake must start from empty tables and program exactly its image.",
+         "The fake BESS's table semantics (upsert by (masked values, masks) / by fields; delete of absent key is an error) and the rule denotation of DESIGN.md appendix A are trusted; acceptance is observed, not predicted; a divergence seen after a rejected request is reported only if it persists after a further accepted request.", "8/C03", "SEQ"),
  "C17": ("exploration", "bounded-exhaustive enumeration of the input domain on the real functions vs. interval-algebra reference",
          "Every (low,high) pair - thorough: all 2^31 ordered pairs for both strategies and all 2^32 pairs for classification/trivial conversion; quick: all pairs below 2048 plus the power-of-two/edge neighbourhood - is expanded by the real code and the rule set is compared with the set the range denotes; products over boundary-class range pairs; port texts. Complete over the property's own quantifier in the thorough tier.",
          "Trusts the ternary-match semantics p&mask==port&mask and the Go toolchain; 0-0 is wildcard by documented design.", "8/C17", "ENUM"),
@@ -35,7 +38,7 @@ m = dict(version=1,
                     baseline_off_cmd="cd /repo && GOFLAGS=-mod=mod go test -vet=off -count=1 ./...",
                     source_commits=[], add_only=True),
          engines=[dict(name="ENUM", path="/verif/harness", serves_properties=["C17", "C18"], kind_free_text="bounded-exhaustive input enumeration against a reference, on the real functions"),
-                  dict(name="SEQ", path="/verif/harness", serves_properties=["C02"], kind_free_text="explicit-state BFS over operation histories; each transition calls the real handler on a freshly built real instance (replay), state de-duplication by canonical key with agent-chosen identifiers renamed"),
+                  dict(name="SEQ", path="/verif/harness", serves_properties=["C02", "C03"], kind_free_text="explicit-state BFS over operation histories; each transition calls the real handler on a freshly built real instance (replay), state de-duplication by canonical key with agent-chosen identifiers renamed"),
                   ],
          checks=checks, not_applicable=na,
          notes="All checks run through ./vcheck (python orchestrator): it rebuilds the test binary from /repo's working tree with the harness overlaid, shards the enumeration over 16 worker processes, merges their results, compares finding signatures with known_findings.txt and writes evidence/<id>.json. Exit 2 = infrastructure error (never with a VIOLATION line).")
